@@ -179,6 +179,71 @@ def wrapper_sig(prog, t):
     return None
 
 
+def fold_pad_tables(prog, term, depth=0):
+    """Evaluate module-level tables that are computed at import time from
+    `marshal.pad[<code>](n)` over constant ranges (`tuple(pad['header'](n)
+    for n in range(8))`, and tables derived from such tables): the padding
+    function is taken to be what the specification says - zero bytes up to
+    the next multiple of the alignment - which is what C01/C02 decide about
+    `pad` itself.  Returns the term with those globals replaced by constants
+    where that works."""
+    from .. import spec as _spec
+    if depth > 3:
+        return term
+
+    def align_of(code):
+        if code == 'header':
+            return _spec.HEADER_ALIGN
+        t = getattr(_spec, 'TYPES', {}).get(code)
+        return t[0] if t else None
+
+    def rewrite(x):
+        if not isinstance(x, tuple) or not x:
+            return x
+        if not isinstance(x[0], str):
+            return tuple(rewrite(y) if isinstance(y, tuple) else y
+                         for y in x)
+        if x[0] == 'global' and len(x) == 3:
+            m = prog.modules.get(x[1])
+            vals = m.assigns.get(x[2]) if m is not None else None
+            if vals and len(vals) == 1 and x[2] not in m.mutated and \
+                    x[2] != 'pad':
+                v = Interp(prog).eval_in_module(m, vals[0])
+                if v is not None:
+                    v2 = fold_pad_tables(prog, v, depth + 1)
+                    if try_py(v2)[0]:
+                        return v2
+            return x
+        if x[0] == 'call' and kind(x[2]) == 'sub' and \
+                kind(x[2][1]) == 'global' and x[2][1][2] == 'pad' and \
+                is_const(x[2][2]) and len(x[3]) == 1 and not x[4]:
+            a = rewrite(x[3][0])
+            al = align_of(x[2][2][1])
+            if is_const(a) and isinstance(a[1], int) and al:
+                return C(b'\0' * ((-a[1]) % al))
+        if x[0] == 'call' and x[1] in ('tuple', 'list') and \
+                len(x[3]) == 1 and kind(x[3][0]) == 'comp':
+            comp = x[3][0]
+            if len(comp[2]) == 1 and len(comp[3]) == 1 and not comp[5]:
+                seq = rewrite(comp[3][0])
+                ok, items = try_py(seq)
+                if ok and not isinstance(items, dict) and len(items) <= 64:
+                    el = comp[2][0]
+                    elems = [t for t in walk_term(el) if kind(t) == 'elem']
+                    out = []
+                    for it in items:
+                        from ..sym import from_py
+                        e2 = subst_fold(el, {e_: from_py(it)
+                                             for e_ in elems})
+                        e2 = subst_fold(rewrite(e2), {})
+                        if not is_const(e2):
+                            return x
+                        out.append(e2)
+                    return ('tuple', tuple(out))
+        return tuple(rewrite(y) if isinstance(y, tuple) else y for y in x)
+    return subst_fold(rewrite(term), {})
+
+
 def _padding_from_table(prog, padt, hdr):
     """`_TABLE[len(header) % 8]` where the module-level table is
     `tuple(pad['header'](n) for n in range(8))`: the padding to a multiple of
@@ -678,6 +743,9 @@ def reader_rules(ctx, classes, table_is_mapping=True):
                     continue
                 covered.setdefault('<padding>', set()).add(nh)
                 r = subst_fold(lo, env)
+                if not is_const(r) and contains(
+                        r, lambda x: kind(x) == 'global'):
+                    r = subst_fold(fold_pad_tables(prog, r), env)
                 if not is_const(r) and contains(
                         r, lambda x: kind(x) == 'global'):
                     # the padding comes out of a module-level table the value
